@@ -189,16 +189,22 @@ def step (st : St) (line : String) : St × String :=
   | ["write", n] =>
     match n.toNat?, st.file with
     | some n, some f =>
-      let r := f.step (.write (genBytes st.off n 3))
+      let r := f.step (.write (genBytes st.off n 3) false)
       let st' := { st with file := some r.1, fs := run st.umask st.fs r.2.2, off := if r.2.1 = .ok then st.off + n else st.off }
       (st', apiObs st' (showRes r.2.1 ""))
     | _, _ => (st, "bad-op")
   | [op] =>
-    match st.file, (match op with | "commit" => some Op.commit | "close" => some Op.close | "closefd" => some Op.closeFd | _ => none) with
+    match st.file, (match op with | "commit" => some (Op.commit false false) | "close" => some (Op.close false) | "closefd" => some Op.closeFd | _ => none) with
     | some f, some o =>
-      let r := f.step o
+      -- environment: renaming a file onto a directory fails
+      let dstIsDir := match st.fs dstP with
+        | some d => decide (d.mode ≥ dirFlag)
+        | none => false
+      let r := f.step (match o with
+        | .commit a _ => .commit a dstIsDir
+        | o => o)
       let st' := { st with file := some r.1, fs := run st.umask st.fs r.2.2 }
-      (st', apiObs st' (showRes r.2.1 ""))
+      (st', apiObs st' (showRes r.2.1 "DIR"))
     | _, _ => (st, "bad-op")
   | _ => (st, "bad-op")
 
